@@ -327,6 +327,14 @@ def _fold(d, x, f):
     return v
 
 
+def r_helper_pair(d, x):
+    out = {}
+    for i, fn in ((1, d['fn1']), (2, d['fn2'])):
+        v = HELPERS[fn][1](d, x)
+        out['r%d' % i] = None if v is None else v % (1 << d['_rw%d' % i])
+    return out
+
+
 def r_helper(d, x):
     v = HELPERS[d['fn']][1](d, x)
     if v is None:
@@ -335,7 +343,7 @@ def r_helper(d, x):
 
 
 REF = {
-    'Helper': r_helper,
+    'Helper': r_helper, 'HelperPair': lambda d, x: r_helper_pair(d, x),
     'And': r_and, 'Or': r_or, 'Xor': r_xor, 'Nor': r_nor,
     'And2': r_and2, 'Or2': r_or2, 'Xor2': r_xor2, 'Nand2': r_nand2, 'Nor2': r_nor2,
     'Not': r_not, 'Buf': r_buf, 'BufEnable': r_bufenable, 'AndBits': r_andbits, 'OrBits': r_orbits,
